@@ -146,3 +146,14 @@ def register(claim):
           "resolution retries with fresh containers, registers only complete components, stops on no progress and precedes message parsing.",
           NOTE_COMMON + " That every valid instance of every message type of the bundled dictionaries validates, value by value, is not decided.",
           "DESIGN.md#c15")
+
+    claim("C19", "folding of the datatype dispatch chain and helper keyword options, dominance of lexical guards over accepting returns, regular-language inclusion of each guard "
+          "(re._parser AST -> NFA, subset construction) in the FIX lexical space, XML datatype census read as data",
+          "Static, all strings: every datatype name used by the bundled dictionaries has a dispatch branch; every accepting path through int()/float()/strptime is "
+          "dominated by a regex guard on the same value whose language (folded per numeric type / per format incl. the fractional-second variant) is included in "
+          "the catalogued FIX lexical space; per-datatype options (positive SeqNum/NumInGroup, DayOfMonth 1..31, Char 1, Boolean {Y,N}, bounded ASCII-alphanumeric "
+          "codes, week codes w1..w5) fold to the required values and are enforced by the helper; enumerated fields accept by membership only; rejections are "
+          "FIXMessageError; the EndSeqNo special case only clears for tag 16 value '0'.",
+          NOTE_COMMON + " Two known findings pinned by tests: LENGTH is a no-op branch, String rejects '='. Calendar validity beyond strptime (leap seconds) and "
+          "the 1..6 fractional digits tolerance are not decided against FIX 4.4's exact .sss.",
+          "DESIGN.md#c19")
